@@ -65,6 +65,9 @@ type Plan struct {
 	// OldBelow, if > 0: the chain is spaced so that the blocks up to this
 	// height are more than 24 h old while the tip is recent.
 	OldBelow int32 `json:",omitempty"`
+	// HonestBlip: after the initial sync the honest peer's connection drops
+	// once (it is redialled by the client 300 ms later).
+	HonestBlip bool `json:",omitempty"`
 }
 
 // PlanFromSeed derives a convergence scenario (pure function of seed, k).
@@ -153,6 +156,20 @@ func PlanFromSeed(seed int64, k int) Plan {
 		p.Peers = []PeerPlan{{Kind: BLighter, At: 40}, {Kind: BHonest}}
 		p.FirstPeer = 0
 		p.Extend, p.ReorgDepth = 0, 0
+	}
+	if k == 10 {
+		// A fixed scenario: the honest peer syncs the client; a peer that
+		// overstates its height (and only has the first 60 blocks) connects
+		// while the client is current and is asked for headers once; then the
+		// honest peer's connection drops for a moment.
+		p.ChainLen = 120
+		p.Checkpoints = nil
+		p.Preset = chaingen.PresetNoRetarget
+		p.Peers = []PeerPlan{{Kind: BHonest}, {Kind: BStale, At: 60, Claim: 200}}
+		p.FirstPeer = 0
+		p.HonestBlip = true
+		p.Announce = "inv"
+		p.Extend, p.ReorgDepth = 2, 0
 	}
 	if k == 9 {
 		// A fixed scenario: a peer that announces every new block by inv
@@ -549,8 +566,18 @@ func (b *Built) SetHonestTip(n *chaingen.Node, announce string) {
 	if len(b.Squats) > 0 {
 		time.Sleep(3 * time.Millisecond) // the squatters' announcements arrive first
 	}
+	prev := b.Honest[0].View.Tip()
 	for _, hp := range b.Honest {
 		hp.View.SetTip(n)
+	}
+	// A headers announcement carries every header the peer has not announced
+	// yet (from the fork point with its previous tip), as a node that was
+	// asked for direct header announcements does; at most one message full.
+	ann := []*chaingen.Node{n}
+	if prev != nil && prev != n {
+		if fp := chaingen.ForkPoint(prev, n); fp != nil && n.Height-fp.Height <= wire.MaxBlockHeadersPerMsg {
+			ann = n.Path()[fp.Height+1:]
+		}
 	}
 	for _, hp := range b.Honest {
 		if hp.Conn() == nil {
@@ -559,7 +586,7 @@ func (b *Built) SetHonestTip(n *chaingen.Node, announce string) {
 		if announce == "inv" {
 			hp.AnnounceInv(n)
 		} else {
-			hp.AnnounceHeaders(n)
+			hp.AnnounceHeaders(ann...)
 		}
 	}
 }
